@@ -227,6 +227,21 @@ func runC19(c *rt.Ctx) {
 				}
 			}
 		}
+		// a label listed twice (consul returning an instance twice, a hostname repeated on the command
+		// line) names the same set of nodes
+		if n >= 2 && n <= 8 {
+			for _, dup := range []int{0, n - 1} {
+				withDup := append(append([]string{}, labels...), labels[dup])
+				rd := mkRing(withDup)
+				for _, h := range probes {
+					c.Eval(1)
+					if a, b := owner(base, h), owner(rd, h); a != b {
+						c.Violation("C19 depends-on-repetition", fmt.Sprintf("hash %#x is owned by %s with nodes %v but by %s when %s is listed twice", h, a, labels, b, labels[dup]), map[string]interface{}{"labels": labels, "dup": labels[dup]})
+						break
+					}
+				}
+			}
+		}
 		if n <= 3 {
 			c.Sample(map[string]interface{}{"nodes": labels, "ring_points": len(ringPoints(labels)), "probe_hashes": len(probes), "key_share": share})
 		}
